@@ -11,7 +11,7 @@ def gen(tier, seed, salt, n_quick, n_thorough, fixed=True):
     pools = {"corpus": T.corpus_texts() + T.dataset_texts(400)}
     cases = []
     if fixed:
-        for t in T.IMPOSSIBLE + T.MODIFIER_STACKS + T.TRIVIAL + T.POD_EDGE + T.MONTH_END_RANGES + T.POD_RANGES + T.SAME_HOUR_PAIRS:
+        for t in T.IMPOSSIBLE + T.MODIFIER_STACKS + T.TRIVIAL + T.POD_EDGE + T.MONTH_END_RANGES + T.POD_RANGES + T.SAME_HOUR_PAIRS + T.DOUBLED:
             for lat in (True, False):
                 cases.append({"g": "G1/fixed", "t": t, "ts": "2021-03-10T12:43:30", "o": {"latent_time": lat, "max_stack_depth": 10,
                                                                                          "relative_match_len": 1.0, "scorer": "shipped", "debug": False}})
